@@ -1,13 +1,17 @@
-(* C10, generalised — a crash harms no other pid and never serves wrong bytes, for EVERY start
-   state satisfying the representation invariant, EVERY call and EVERY crash point (no menu).
-   Statements are restated in full and closed by [exact] of the lemmas of CrashGeneral.v.
+(* C10, generalised — a crash harms no other pid, never serves wrong bytes and never wedges the
+   interrupted pid, for EVERY start state satisfying the representation invariant, EVERY call and
+   EVERY crash point (no menu).  Statements are restated in full and closed by [exact] of the
+   lemmas of CrashGeneral.v.
 
-   Proved here: (T1) others untouched; (T2) never wrong bytes; and of (T3) recovery only the frame
-   part (whatever the recovery calls do, the others stay untouched and every permanent file stays
-   well typed).  NOT proved: that delete_object then store_object return and succeed, and that the
-   content served to the interrupted pid is the old one or the call's ([allowed_contents]).
-   The full statement is kept visible as [C10_general_statement]; as literally stated it is FALSE
-   (a pid tagged to a cid whose object does not exist), see [C10g_statement_false]. *)
+   Proved: (T1) others untouched; (T2) never wrong bytes, with the content being the old one or
+   the call's; (T3) recovery: from every crash state delete_object returns (success or "unknown
+   pid") and store_object then succeeds and the pid is retrievable; and the whole statement
+   [C10_general_statement_corrected] ([C10g_corrected]).
+   The statement as first written, [C10_general_statement], is FALSE ([C10g_statement_false]); the
+   corrected one carries three hypotheses, each shown necessary by an example:
+   [no_dangling] (no pid tagged to a cid without object), [call_size_ok] and [rec_size_ok] (size
+   consistency: in the token model the chunk count of a content is an argument independent of
+   its cid — a modelling artefact). *)
 From HS Require Import Base PyVal FS Ops Spec Sched Refine CrashFault Integrity CrashGeneral.
 
 (* ---------- definitions pinned ---------- *)
@@ -170,3 +174,158 @@ Proof.
   - vm_compute. reflexivity.
 Qed.
 Print Assumptions C10g_nonvacuous.
+
+(* =================================================================================== *)
+(* clause (b) in full, recovery (T3), and the corrected full statement                  *)
+(* =================================================================================== *)
+
+(* ---------- hypotheses pinned ---------- *)
+
+Theorem C10g_no_dangling_def :
+  forall w0 : world,
+    no_dangling w0 <->
+    (forall (q : pid) (k : cid), lookup (APidRef q) (fs w0) = Some (CCid k) -> lookup (AObj k) (fs w0) <> None).
+Proof. exact (fun w0 => iff_refl _). Qed.
+Print Assumptions C10g_no_dangling_def.
+
+(* size consistency of the interrupted call: an object b already in the start world has the
+   call's chunk count (in reality the count is a function of the bytes) *)
+Theorem C10g_call_size_ok_def :
+  forall (w0 : world) (c : call),
+    call_size_ok w0 c <->
+    match c with
+    | CStore _ _ b n _ _ => forall x : fcontent, lookup (AObj b) (fs w0) = Some x -> x = CData b n n
+    | _ => True
+    end.
+Proof. exact (fun w0 c => iff_refl _). Qed.
+Print Assumptions C10g_call_size_ok_def.
+
+(* size consistency of the recovery content d, which [recovers] stores as 1 chunk *)
+Theorem C10g_rec_size_ok_def :
+  forall (w0 : world) (c : call) (d : nat),
+    rec_size_ok w0 c d <->
+    ((forall x : fcontent, lookup (AObj d) (fs w0) = Some x -> x = CData d 1 1) /\
+     match c with CStore _ _ b n _ _ => b = d -> n = 1 | _ => True end).
+Proof. exact (fun w0 c d => iff_refl _). Qed.
+Print Assumptions C10g_rec_size_ok_def.
+
+(* the crash states: the frame invariant and empty lock lists — nothing finer is needed *)
+Theorem C10g_CrashInv_def :
+  forall (w0 : world) (p : pid) (w : world), CrashInv w0 p w <-> (WI w0 p w /\ locks w = []).
+Proof. exact (fun w0 p w => iff_refl _). Qed.
+Print Assumptions C10g_CrashInv_def.
+
+(* ---------- clause (b) in full ---------- *)
+
+Theorem C10g_pid_retrievable_or_notfound :
+  forall (w0 : world) (c : call) (p : pid) (n : nat),
+    Inv w0 -> call_pid c = Some p -> call_size_ok w0 c ->
+    let w := reopen (run_crash n w0 (api c)) in
+    (exists b m : nat,
+       retr w p = Some (Val (CData b m m)) /\
+       In (CData b m m) (old_contents w0 p ++ call_contents w0 c p) /\
+       lookup (APidRef p) (fs w) = Some (CCid b))
+    \/
+    (exists e : exn,
+       retr w p = Some (Exn e) /\
+       (e = EPidRefsDoesNotExist \/ e = EOrphanPidRefsFileFound \/ e = EPidNotFoundInCidRefsFile \/
+        e = ERefsFileExistsButCidObjMissing)).
+Proof. exact crash_pid_retrievable_or_notfound. Qed.
+Print Assumptions C10g_pid_retrievable_or_notfound.
+
+(* the hypothesis is necessary: content 7 stored as 3 chunks under pid 2; store_object(pid 1,
+   content 7 "of 1 chunk") completes and pid 1 is served the 3 chunks *)
+Example C10g_size_consistency_needed :
+  Inv size_w0 /\ call_pid size_call = Some 1 /\ ~ call_size_ok size_w0 size_call /\
+  ~ pid_retrievable_or_notfound size_w0 size_call 1 (reopen (run_crash 100 size_w0 (api size_call))).
+Proof. exact size_consistency_needed. Qed.
+Print Assumptions C10g_size_consistency_needed.
+
+(* ---------- (T3) recovery ---------- *)
+
+(* (i) every crash of a call on p leaves a crash state *)
+Theorem C10g_crash_CrashInv :
+  forall (w0 : world) (c : call) (p : pid) (n : nat),
+    Inv w0 -> (forall p' : pid, call_pid c = Some p' -> p' = p) ->
+    CrashInv w0 p (reopen (run_crash n w0 (api c))).
+Proof. exact crash_CrashInv. Qed.
+Print Assumptions C10g_crash_CrashInv.
+
+(* (ii) from ANY crash state delete_object p returns — no ill-typed answer, no blocking — with
+   success or PidRefsDoesNotExist; p's reference is gone; no object appears or changes; the result
+   is again a crash state (so the others are still untouched) *)
+Theorem C10g_delete_after_crash :
+  forall (w0 : world) (p : pid) (w : world),
+    CrashInv w0 p w ->
+    exists (w1 : world) (r1 : outcome unit),
+      run_seq w (delete_object p) = Some (w1, r1) /\
+      (r1 = Val tt \/ r1 = Exn EPidRefsDoesNotExist) /\
+      lookup (APidRef p) (fs w1) = None /\
+      CrashInv w0 p w1 /\
+      (forall (k : cid) (x : fcontent), lookup (AObj k) (fs w1) = Some x -> lookup (AObj k) (fs w) = Some x).
+Proof. exact delete_after_crash. Qed.
+Print Assumptions C10g_delete_after_crash.
+
+(* (iii) from ANY crash state where p has no reference, store_object(p, d) succeeds and p is
+   retrievable with d *)
+Theorem C10g_store_after_delete :
+  forall (w0 : world) (p : pid) (w1 : world) (d : nat),
+    CrashInv w0 p w1 -> lookup (APidRef p) (fs w1) = None ->
+    (forall x : fcontent, lookup (AObj d) (fs w1) = Some x -> x = CData d 1 1) ->
+    exists w2 : world,
+      run_seq w1 (store_object (Some p) SrcPath d 1 VSzNone VCkNone) = Some (w2, Val (VMeta d 1)) /\
+      retr w2 p = Some (Val (CData d 1 1)) /\
+      CrashInv w0 p w2.
+Proof. exact store_after_delete. Qed.
+Print Assumptions C10g_store_after_delete.
+
+(* together, in the vocabulary of CrashFault.v *)
+Theorem C10g_crash_recovers :
+  forall (w0 : world) (c : call) (p : pid) (n : nat) (d : nat) (others : list pid) (fmts : list fmt),
+    Inv w0 -> no_dangling w0 -> call_pid c = Some p -> rec_size_ok w0 c d ->
+    recovers fmts w0 p others (reopen (run_crash n w0 (api c))) d.
+Proof. exact crash_recovers. Qed.
+Print Assumptions C10g_crash_recovers.
+
+(* "p is in no cid list after delete_object" does NOT hold in every crash state *)
+Example C10g_stale_line_survives :
+  let w0 := mkWorld [(AObj 7, CData 7 1 1); (APidRef 1, CCid 7); (ACidRef 7, CLines [1])] [] in
+  let w := reopen (run_crash 13 w0 (api (CDelete 1))) in
+  fs w = [(AObj 7, CData 7 1 1); (ACidRef 7, CLines [1]); (ADel (APidRef 1), CCid 7)] /\
+  run_seq w (delete_object 1) = Some (w, Exn EPidRefsDoesNotExist).
+Proof. exact stale_line_survives. Qed.
+Print Assumptions C10g_stale_line_survives.
+
+(* ---------- the corrected full statement ---------- *)
+
+Theorem C10g_corrected_def :
+  C10_general_statement_corrected <->
+  (forall (w0 : world) (c : call) (p : pid) (n : nat),
+     Inv w0 -> no_dangling w0 -> call_pid c = Some p -> call_size_ok w0 c ->
+     let w := reopen (run_crash n w0 (api c)) in
+     (forall (q : pid) (fmts : list fmt), q <> p -> other_untouched fmts w0 w q) /\
+     pid_retrievable_or_notfound w0 c p w /\
+     (forall (d : nat) (others : list pid) (fmts : list fmt),
+        rec_size_ok w0 c d -> recovers fmts w0 p others w d)).
+Proof. exact (iff_refl _). Qed.
+Print Assumptions C10g_corrected_def.
+
+Theorem C10g_corrected : C10_general_statement_corrected.
+Proof. exact C10_general_corrected. Qed.
+Print Assumptions C10g_corrected.
+
+(* non-vacuity of the recovery theorem: the half-bound example again, recovery content 8 *)
+Example C10g_recovery_nonvacuous :
+  no_dangling g_w0 /\ rec_size_ok g_w0 g_call 8 /\
+  recovers [0; 1] g_w0 3 [1; 2] (reopen (run_crash 18 g_w0 (api g_call))) 8.
+Proof.
+  assert (HI : Inv g_w0) by exact (proj1 C10g_nonvacuous).
+  assert (Hnd : no_dangling g_w0).
+  { intros q k Hk. vm_compute in Hk.
+    destruct q as [|[|q]]; try discriminate. inversion Hk; subst. vm_compute. discriminate. }
+  assert (Hs : rec_size_ok g_w0 g_call 8).
+  { split; [intros x Hx; vm_compute in Hx; discriminate|]. simpl. intros H; discriminate. }
+  split; [exact Hnd|]. split; [exact Hs|].
+  exact (crash_recovers g_w0 g_call 3 18 8 [1; 2] [0; 1] HI Hnd eq_refl Hs).
+Qed.
+Print Assumptions C10g_recovery_nonvacuous.
